@@ -46,13 +46,13 @@ def run_op(c, p):
         if hasattr(res, "ravel"):
             res = res.ravel()           # the library answers a single key with a one-element array: accepted
     elif op == "getv":
-        res = t[arr(c["q"], kd)] if not p.get("aslist") else t[[pyint(x) for x in c["q"]]]
+        res = t[arr(c["q"], p.get("qdtype", kd))] if not p.get("aslist") else t[[pyint(x) for x in c["q"]]]
     elif op == "set1":
         t[pyint(c["q"][0])] = pyint(c["v"][0])
     elif op == "setv":
-        t[arr(c["q"], kd)] = arr(c["v"], "int64") if p.get("vvec") else pyint(c["v"][0])
+        t[arr(c["q"], p.get("qdtype", kd))] = arr(c["v"], "int64") if p.get("vvec") else pyint(c["v"][0])
     elif op == "contains":
-        res = t.contains(arr(c["q"], kd))
+        res = t.contains(arr(c["q"], p.get("qdtype", kd)))
     elif op == "fill":
         t.fill(pyint(c["v"][0]))
     elif op == "zeros_like":
@@ -83,12 +83,14 @@ def gen(E, p):
         E.assume(z3.Distinct(*keys))
     nv = n if p["state"] == "array" else 1
     vals = [E.int(f"v{i}", -VB, VB) for i in range(nv)]
-    mods = list(range(1, p["modmax"] + 1)) + [None]
+    mods = list(range(1, p["modmax"] + 1)) + ([None] if p.get("defaultmod", True) else [])
     mod = E.choose("mod", mods)
     c = dict(keys=keys, vals=vals, mod=mod)
     op = p["op"]
     nq = p.get("nq", 1)
     mkq = (lambda name: E.int(name, -KB, KB)) if kd == "int64" else (lambda name: E.bv(name, 8))
+    if p.get("qdtype") == "int64" and kd != "int64":
+        mkq = lambda name: E.bv(name, 64)       # queries wider than the key dtype (64-bit vectors): values that do not fit must be absent
     if op in ("get1", "set1") or (op == "hs_contains" and p.get("scalar")):
         c["q"] = [mkq("q0")]
     elif op in ("getv", "setv", "contains", "hs_contains"):
@@ -111,12 +113,18 @@ def sym(E, p, kf):
     n = len(keys)
     val_of = (lambda i: vals[i]) if p["state"] == "array" else (lambda i: vals[0])
     q = c.get("q", [])
-    present = [z3.Or(*[qq == k for k in keys]) for qq in q]
+    signed_key = p.get("kdtype", "int64") == "int8"
+
+    def same(qq, k):
+        if z3.is_bv(qq) and z3.is_bv(k) and qq.size() != k.size():
+            return qq == (z3.SignExt(qq.size() - k.size(), k) if signed_key else z3.ZeroExt(qq.size() - k.size(), k))
+        return qq == k
+    present = [z3.Or(*[same(qq, k) for k in keys]) for qq in q]
 
     def lookup(qq, valfn):
         out = valfn(n - 1)
         for i in range(n - 2, -1, -1):
-            out = z3.If(qq == keys[i], valfn(i), out)
+            out = z3.If(same(qq, keys[i]), valfn(i), out)
         return out
     if op in ("get1", "set1"):
         E.assume(present[0])          # scalar access to an absent key is outside the claim (the library returns an empty array)
@@ -143,7 +151,7 @@ def sym(E, p, kf):
         for i in range(n):
             cur = val_of(i)
             for j, qq in enumerate(q):
-                cur = z3.If(qq == keys[i], c["v"][j] if p.get("vvec") else c["v"][0], cur)
+                cur = z3.If(same(qq, keys[i]), c["v"][j] if p.get("vvec") else c["v"][0], cur)
             final.append(cur)
     elif op == "fill":
         final = [c["v"][0]] * n
@@ -199,8 +207,10 @@ def conc(case):
     p, c = case["p"], dict(case["c"])
     kd = p.get("kdtype", "int64")
     c["keys"] = _sk(c["keys"], kd)
-    if "q" in c:
+    if "q" in c and p.get("qdtype", kd) == kd:
         c["q"] = _sk(c["q"], kd)
+    elif "q" in c:
+        c["q"] = [x - (1 << 64) if x >= 1 << 63 else x for x in c["q"]]
     keys, vals, op = c["keys"], c["vals"], p["op"]
     n = len(keys)
     got = outcome(lambda: run_op(c, p))
@@ -267,6 +277,10 @@ def jobs(tier, seed):
     for kd in ("uint8", "int8"):
         out.append(dict(base, op="getv", state="array", kdtype=kd))
         out.append(dict(base, op="contains", state="array", kdtype=kd))
+        # queries given in a wider dtype than the keys: out-of-range query values are absent keys, not aliases of present ones
+        out.append(dict(base, op="getv", state="array", kdtype=kd, qdtype="int64", nq=1, defaultmod=False))
+        out.append(dict(base, op="setv", state="array", kdtype=kd, qdtype="int64", nq=1, defaultmod=False))
+        out.append(dict(base, op="contains", state="array", kdtype=kd, qdtype="int64", nq=1, defaultmod=False))
     return [dict(h="C11.table", p=p) for p in out]
 
 
